@@ -8,9 +8,11 @@ def run(ctx):
     q = ctx.quick()
     vlib.standard_run(
         ctx,
-        mc=[("MC_FlowReject", "MC_FlowReject.cfg" if q else "MC_FlowReject_thorough.cfg", 8 if q else 14, 600 if q else 3000)],
+        mc=[("MC_FlowReject", "MC_FlowReject.cfg" if q else "MC_FlowReject_thorough.cfg", 8 if q else 14, 600 if q else 3000),
+            ("MC_FlowReject", "MC_FlowReject_mem.cfg", 6, 900)],          # memory-adaptive thresholds
         goals=("MC_FlowReject", "MC_FlowReject.cfg", ["GoalBlockedAtBoundary", "GoalPrivateExpires", "GoalTwoAdmissions"]),
         gens=[("MC_FlowReject", "Gen_FlowReject.cfg" if q else "Gen_FlowReject_thorough.cfg", None, None),
+              ("MC_FlowReject", "Gen_FlowReject_mem.cfg", None, 1500 if q else 30000),
               ("MC_FlowReject", "Gen_FlowReject_sim.cfg", "num=%d" % (400 if q else 8000), 400 if q else 8000)],
         trace=TRACE,
         drives=[["world-drive", "--prop", "c01", "--hist", 250 if q else 5000, "--len", 60]],
